@@ -304,6 +304,8 @@ impl SyslineReader {
         &&& forall|x: FileOffset| #[trigger] self.syslines_by_range@.contains_key(x) ==> self.syslines@.contains_key(self.syslines_by_range@[x])
                 && s_beg(*self.syslines@[self.syslines_by_range@[x]]) <= x as int <= s_end(*self.syslines@[self.syslines_by_range@[x]])
         &&& forall|k: FileOffset| #[trigger] self.find_sysline_lru_cache@.contains_key(k) ==> answer_ok(self.model(), k as int, self.find_sysline_lru_cache@[k])
+        &&& forall|k1: FileOffset, k2: FileOffset| #[trigger] self.syslines@.contains_key(k1) && #[trigger] self.syslines@.contains_key(k2) && k1 != k2
+                ==> s_end(*self.syslines@[k1]) < s_beg(*self.syslines@[k2]) || s_end(*self.syslines@[k2]) < s_beg(*self.syslines@[k1])
     }
     pub open spec fn store_same(&self, o: &Self) -> bool {
         self.syslines == o.syslines && self.syslines_by_range == o.syslines_by_range && self.find_sysline_lru_cache == o.find_sysline_lru_cache
@@ -324,13 +326,13 @@ impl SyslineReader {
             r is Ok ==> r->Ok_0.0 < r->Ok_0.1 && r->Ok_0.1 as int <= linep.end() - linep.beg() + 1,
     { unimplemented!() }
     // ASSUMED here, PROVED in unit SST: recording a whole message keeps the store invariant, provided whatever the range map already
-    // knows inside the new message's extent (or under its first byte) belongs to a stored message with the same extent
+    // (a stored message that overlaps the new one has the same extent)
     #[verifier::external_body]
     pub fn insert_sysline(&mut self, sysline: Sysline) -> (r: SyslineP)
         requires
             old(self).store_wf(), genuine(old(self).model(), sysline), 0 <= s_beg(sysline) <= s_end(sysline) < u64::MAX - 1,
-            forall|x: FileOffset| #[trigger] old(self).syslines_by_range@.contains_key(x) && (s_beg(sysline) <= x as int <= s_end(sysline) || old(self).syslines_by_range@[x] as int == s_beg(sysline))
-                ==> s_beg(*old(self).syslines@[old(self).syslines_by_range@[x]]) == s_beg(sysline) && s_end(*old(self).syslines@[old(self).syslines_by_range@[x]]) == s_end(sysline),
+            forall|k: FileOffset| #[trigger] old(self).syslines@.contains_key(k) && !(s_end(*old(self).syslines@[k]) < s_beg(sysline) || s_end(sysline) < s_beg(*old(self).syslines@[k]))
+                ==> s_beg(*old(self).syslines@[k]) == s_beg(sysline) && s_end(*old(self).syslines@[k]) == s_end(sysline),
         ensures *r == sysline, final(self).linereader == old(self).linereader, final(self).store_wf(),
             final(self).find_sysline_lru_cache == old(self).find_sysline_lru_cache,
     { unimplemented!() }
@@ -453,11 +455,13 @@ impl SyslineReader {
         proof {
             assert(genuine(l, sysline));
             lemma_msg_lines(l, filesz, sysline);
-            assert forall|x: FileOffset| #[trigger] self.syslines_by_range@.contains_key(x) && (s_beg(sysline) <= x as int <= s_end(sysline) || self.syslines_by_range@[x] as int == s_beg(sysline))
-                implies s_beg(*self.syslines@[self.syslines_by_range@[x]]) == s_beg(sysline) && s_end(*self.syslines@[self.syslines_by_range@[x]]) == s_end(sysline) by {
-                let o = *self.syslines@[self.syslines_by_range@[x]];
-                if s_beg(sysline) <= x as int <= s_end(sysline) { lemma_same_msg(l, filesz, o, sysline, x as int); }
-                else { lemma_msg_lines(l, filesz, o); lemma_same_msg(l, filesz, o, sysline, s_beg(sysline)); }
+            assert forall|k: FileOffset| #[trigger] self.syslines@.contains_key(k) && !(s_end(*self.syslines@[k]) < s_beg(sysline) || s_end(sysline) < s_beg(*self.syslines@[k]))
+                implies s_beg(*self.syslines@[k]) == s_beg(sysline) && s_end(*self.syslines@[k]) == s_end(sysline) by {
+                let o = *self.syslines@[k];
+                lemma_msg_lines(l, filesz, o);
+                // two overlapping extents share the later of their first bytes
+                let x = if s_beg(o) >= s_beg(sysline) { s_beg(o) } else { s_beg(sysline) };
+                lemma_same_msg(l, filesz, o, sysline, x);
             }
         }
 //@after "let syslinep: SyslineP = self.insert_sysline(sysline);"
@@ -578,11 +582,13 @@ impl SyslineReader {
         proof {
             assert(genuine(l, sysline));
             lemma_msg_lines(l, filesz, sysline);
-            assert forall|x: FileOffset| #[trigger] self.syslines_by_range@.contains_key(x) && (s_beg(sysline) <= x as int <= s_end(sysline) || self.syslines_by_range@[x] as int == s_beg(sysline))
-                implies s_beg(*self.syslines@[self.syslines_by_range@[x]]) == s_beg(sysline) && s_end(*self.syslines@[self.syslines_by_range@[x]]) == s_end(sysline) by {
-                let o = *self.syslines@[self.syslines_by_range@[x]];
-                if s_beg(sysline) <= x as int <= s_end(sysline) { lemma_same_msg(l, filesz, o, sysline, x as int); }
-                else { lemma_msg_lines(l, filesz, o); lemma_same_msg(l, filesz, o, sysline, s_beg(sysline)); }
+            assert forall|k: FileOffset| #[trigger] self.syslines@.contains_key(k) && !(s_end(*self.syslines@[k]) < s_beg(sysline) || s_end(sysline) < s_beg(*self.syslines@[k]))
+                implies s_beg(*self.syslines@[k]) == s_beg(sysline) && s_end(*self.syslines@[k]) == s_end(sysline) by {
+                let o = *self.syslines@[k];
+                lemma_msg_lines(l, filesz, o);
+                // two overlapping extents share the later of their first bytes
+                let x = if s_beg(o) >= s_beg(sysline) { s_beg(o) } else { s_beg(sysline) };
+                lemma_same_msg(l, filesz, o, sysline, x);
             }
         }
 //@after "let syslinep: SyslineP = self.insert_sysline(sysline);" 1
